@@ -3,11 +3,15 @@ import Driver.HsShared
   Line-protocol driver of property C07: the client machine `hsRun` on the operation's draws, public
   key and three reply bodies, with the executable SHA-1 / AES-256 / modular exponentiation plugged in.
     c07.hs <tag> <nonce> <new_nonce> <b> <padseed> <pad16> <n> <e> <p> <q> <reply1> <reply2> <reply3>
+    c07.seq <tag> <keyobj> <k> { <the 12 tokens of a c07.hs after its tag> } x k
+  several exchanges of one process, the caller's key object (fresh | slot | setn) given the next key before
+  each: the model's client is a function of ITS configuration and replies — no state outlives an exchange, a key
+  is a value — so each exchange is answered on its own.
 -/
 namespace Driver.C07
 open Mtv Mtv.Handshake Driver Driver.Hs
 
-def handle : List String → String
+def handleHs : List String → String
   | ["c07.hs", _tag, nonce, nn, b, _ps, pad, n, e, p, q, r1, r2, r3] =>
     match parseBytes? nonce, parseBytes? nn, parseBytes? b, parseBytes? pad, hexNat? n, e.toNat?,
           parseBytes? r1, parseBytes? r2, parseBytes? r3 with
@@ -21,5 +25,19 @@ def handle : List String → String
       resultLine st acts
     | _, _, _, _, _, _, _, _, _ => "bad-op"
   | _ => "bad-op"
+
+def chunks (n : Nat) (xs : List String) : Nat → List (List String)
+  | 0 => []
+  | fuel + 1 => if xs.isEmpty then [] else xs.take n :: chunks n (xs.drop n) fuel
+
+def handle : List String → String
+  | "c07.seq" :: _tag :: keyobj :: k :: rest =>
+    match k.toNat? with
+    | some k =>
+      if keyobj ∉ ["fresh", "slot", "setn"] ∨ k = 0 ∨ rest.length ≠ 12 * k then "bad-op" else
+      let outs := (chunks 12 rest k).map fun c => handleHs ("c07.hs" :: "x" :: c)
+      if outs.contains "bad-op" then "bad-op" else " | ".intercalate outs
+    | none => "bad-op"
+  | ts => handleHs ts
 
 end Driver.C07
